@@ -320,12 +320,16 @@ CHECKS["C15"] = {
              "has the requested key, is not closed, not blocked, and its expiry has not fired. At the end (Pool.Close, all expiries released): every put connection was handed out xor closed, never handed out more often than put; no panic. "
              "Non-trivial: an eviction happened, or an expiry callback was released in the middle of the history. "
              "poolconn: the same ownership rules through the public wrapper (Pool.Get): histories of overlapping Invokes (each parked inside the fake connection until released), streams opened and ended, over two keys and small capacities; "
-             "no fake connection may ever serve two callers at once, no call may run on a connection the pool has closed, bounds hold after every step, and at the end every dialed connection is cached xor closed. Non-trivial: >= 2 calls overlapped and >= 2 connections were dialed."),
+             "no fake connection may ever serve two callers at once, no call may run on a connection the pool has closed, bounds hold after every step, and at the end every dialed connection is cached xor closed. Non-trivial: >= 2 calls overlapped and >= 2 connections were dialed. "
+             "stress (thorough tier, built with -race): 2..6 goroutines issue 4..40 Put/Take/Close calls each on one pool at once (with or without expiration timers), nothing between them but the pool's own locking; "
+             "a race report with both accesses inside storj.io/drpc, a connection closed twice, handed out closed, or closed while a caller holds it is a violation. Non-trivial: >= 2 workers."),
     "assumptions": ["expiry timers are real 1 ns timers whose callbacks park at verif scheduling points; 'fires in the middle of a Put' is not reachable (no fake clock), only 'fired and parked' and 'never fires'",
                     "a mismatch between the walked lists and the pool's own counters is recorded as a diagnostic label, not as a violation"],
     "subs": [
         {"test": "TestC15Pool", "prop": "C15/pool", "quick": 40000, "thorough": 2000000, "shards_quick": 16, "shards_thorough": 16},
         {"test": "TestC15PoolConn", "prop": "C15/poolconn", "quick": 16000, "thorough": 600000, "shards_quick": 16, "shards_thorough": 16},
+        # real concurrency under the race detector (see harness/pool/stress_test.go): thorough tier only
+        {"test": "TestC15PoolStress", "prop": "C15/stress", "thorough": 160000, "shards_thorough": 8, "race": True, "thorough_only": True},
     ],
     "floors": {"C15/pool": {"eviction": 0.213, "expiry_released_mid_history": 0.04, "expiry_fired_and_parked": 0.101}, "C15/poolconn": {"overlapping_calls": 0.3}},
 }
